@@ -31,9 +31,12 @@ FUNCTIONS = ['cflib.crazyflie:Crazyflie.open_link', 'cflib.crazyflie:Crazyflie.c
 STUBS = ['threads are tasks stepped at blocking calls (receive_packet, Queue.get, Lock.acquire on a held lock, time.sleep); Thread.join runs '
          'the joined body to its end, raises RuntimeError for joining oneself (as CPython) and reports a wait-for cycle',
          'Lock -> lock with holder; Queue -> transactional queue; Event (syncCrazyflie) -> event whose wait() runs the other tasks',
-         'FakeDriver in cflib.crtp.CLASSES; device model of the connection sequence written from the CRTP protocol; TocCache without directories']
+         'FakeDriver in cflib.crtp.CLASSES; device model of the connection sequence written from the CRTP protocol; TocCache without directories',
+         'threads[...] harnesses (second engine, vf/env/c02t_env.py): every cflib thread is a real OS thread, only the baton holder runs; '
+         'blocking primitives hand the baton to the harness and the task continues from that point with its stack (locals kept, no '
+         're-execution); same deviations, same oracle']
 ASSUMPTIONS = ['context switches only at blocking calls; preemption between two bytecodes of a step is outside',
-               'link does not need resending (retry timers are C10)', 'tables: 1 log + 1 parameter entry (thorough: also an extended/persistent one)']
+               'link does not need resending (retry timers are C10)', 'tables: 1 log + 1..3 parameter entries (also an extended/persistent one)']
 OUTSIDE = ['free-running OS-thread interleavings and wall-clock bounds ("bounded time" is checked as: finitely many scheduler steps to quiescence)',
            'more than two deviations per history; more than three open_link attempts per object; radio/USB driver threads']
 EXPLANATION = 'C02 (restricted): callback grammar per attempt, no leaked lock / dead task / hang, reconnect works, for every position x kind of one or two deviations.'
